@@ -119,7 +119,12 @@ func sanitize(s string) string {
 }
 
 func mangleType(t types.Type) string {
-	s := types.TypeString(t, func(p *types.Package) string { return p.Name() })
+	s := types.TypeString(t, func(p *types.Package) string {
+		if strings.HasPrefix(p.Path(), "internal/") || strings.Contains(p.Path(), "/internal/") {
+			return p.Path() // e.g. internal/sync.Mutex is not sync.Mutex
+		}
+		return p.Name()
+	})
 	return sanitize(s)
 }
 
